@@ -396,6 +396,27 @@ pub fn check_code(code: &[u8]) -> Result<(bool, bool), Verdict> {
             what: format!("offset {missed} is reachable in the EVM control-flow graph but was never executed (executed: {e:?})"),
         });
     }
+    // a JUMPDEST is a don't-care only where a JUMP lands on it (the tool steps past it by design); one that is entered by
+    // falling into it or by a conditional jump (taken or not) is an instruction like any other
+    let mut entered: BTreeSet<u32> = BTreeSet::new();
+    for p in &x.paths {
+        if let Some(first) = p.executed.first() {
+            if code[*first as usize] == 0x5b {
+                entered.insert(*first);
+            }
+        }
+        for w in p.executed.windows(2) {
+            if code[w[1] as usize] == 0x5b && kinds[w[1] as usize] && !(code[w[0] as usize] == 0x56 && kinds[w[0] as usize]) {
+                entered.insert(w[1]);
+            }
+        }
+    }
+    if let Some(missed) = entered.iter().find(|i| !e.contains(i)) {
+        return Err(Verdict {
+            key: format!("reachable-not-executed:JUMPDEST-entered-without-a-JUMP:{}", describe(code, *missed)),
+            what: format!("the JUMPDEST at offset {missed} is entered by falling into it or by a conditional jump but was never executed (executed: {e:?})"),
+        });
+    }
     // the error mode decides what is REPORTED, never where control goes: same two inclusions in permissive mode
     if let VmRun::Ran(o) = run_vm(code, sle::vm::Config::default().with_permissive_errors(true), lazy()) {
         let ep: BTreeSet<u32> = o.executed.iter().copied().filter(|i| kinds[*i as usize]).collect();
@@ -602,7 +623,7 @@ impl Check for C08 {
                  condition kinds x 7 target kinds: labels, into push data, byte after a label, len, len+1, 2^32+label, 2^64+label, 2^255+label, \
                  computed constant). For each program the real VM's executed-offset set (restricted to instruction boundaries) is \
                  compared with a reference EVM control-flow exploration: always a subset of the over-approximated CFG; for loop-free \
-                 programs equal to the exact reachable set on non-JUMPDEST offsets (also with iteration and fork limit 1 when no \
+                 programs equal to the exact reachable set on non-JUMPDEST offsets and on every JUMPDEST entered by falling into it or by a conditional jump (also with iteration and fork limit 1 when no \
                  JUMPDEST is the target of more than one conditional jump), in strict and in permissive error mode. Plus all sequences of length <= 4 (thorough 5) over 11 tokens with PC-relative jumps (JUMP / conditional JUMPI to PC plus or minus the distance to a label before or after the jump, and to the byte after the label; backward ones are loops checked against bounded unrolling). Plus 686 two-way dispatchers whose three blocks end in every combination of nothing, STOP, RETURN, REVERT, INVALID, SELFDESTRUCT, unassigned byte; and 2 048 loops whose conditional jump takes a target from \
                  the stack that advances by 1 or 2 on every iteration over tails of JUMPDEST / STOP / push data / INVALID bytes, checked \
                  against bounded-unrolling reference explorations. states = distinct programs with a jump whose \
@@ -619,7 +640,7 @@ impl Check for C08 {
     fn assumptions(&self, _tier: Tier) -> Vec<String> {
         vec![
             "reference EVM (ref_evm.rs) is trusted; it knows nothing of the tool's data structures".into(),
-            "JUMPDEST offsets are don't-cares in the 'reachable => executed' direction: JUMP lands on the JUMPDEST and the tool steps past it by design".into(),
+            "a JUMPDEST is a don't-care in the 'reachable => executed' direction only where a JUMP lands on it (the tool steps past it by design); a JUMPDEST entered by falling into it or by a conditional jump must be executed".into(),
             "programs with loops are only checked against the over-approximated CFG (subset direction)".into(),
             "default limits (10 iterations, 50 forks) are never reached by loop-free programs of this size".into(),
         ]
